@@ -624,6 +624,41 @@ def install_env_stubs(eng):
     def guard_release(e, st, args, ins):
         e.store(st, args[0], BV(1, 8), check=False)
         return [(st, None)]
+    # ---- dynamic loader (dylib backend): handles are opaque ids, symbols resolve to functions of the kernel TU
+    def dlopen(e, st, args, ins):
+        n = st.user.get("dl_n", 0) + 1
+        st.user["dl_n"] = n
+        st.events.append(("dlopen", n))
+        return [(st, BV(0x7E0000000000 + n * 0x100, 64))]
+
+    def dlsym(e, st, args, ins):
+        a = simp(args[1])
+        name = e.read_cstr(st, a.as_long()) if is_conc(a) else None
+        st.events.append(("dlsym", simp(args[0]), name))
+        if name in e.m.funcs:
+            return [(st, BV(e.faddr[name], 64))]
+        return [(st, BV(0, 64))]
+
+    def dlclose(e, st, args, ins):
+        st.events.append(("dlclose", simp(args[0])))
+        return [(st, BV(0, 32))]
+    eng.stubs["dlopen"] = dlopen
+    eng.stubs["dlsym"] = dlsym
+    eng.stubs["dlclose"] = dlclose
+    eng.stubs["dlerror"] = lambda e, st, args, ins: [(st, BV(0, 64))]
+    eng.stubs["_ZNSt8ios_base4InitC1Ev"] = lambda e, st, args, ins: [(st, None)]
+    eng.stubs["_ZNSt8ios_base4InitD1Ev"] = lambda e, st, args, ins: [(st, None)]
+
+    def str_create(e, st, args, ins):
+        cap = simp(e.load(st, args[1], 8, check=False))
+        if not is_conc(cap) or cap.as_long() > 4096:
+            st.status = "alloc-fail"
+            st.info = "std::string capacity"
+            return [(st, None)]
+        a = e.malloc(st, cap.as_long() + 1)
+        st.events.append(("alloc", a, cap.as_long() + 1))
+        return [(st, BV(a, 64))]
+    eng.stubs["_ZNSt7__cxx1112basic_stringIcSt11char_traitsIcESaIcEE9_M_createERmm"] = str_create
     eng.stubs["__cxa_guard_acquire"] = guard_acquire
     eng.stubs["__cxa_guard_release"] = guard_release
     eng.stubs["__cxa_guard_abort"] = lambda e, st, args, ins: [(st, None)]
